@@ -217,7 +217,7 @@ pub fn spec_work_blocks(kind: Kind, decoder: bool, k: usize, r: usize, bytes: us
     } else {
         pow2ceil(pow2ceil(k) + r)
     };
-    count * bytes.div_ceil(64)
+    count.saturating_mul(bytes.div_ceil(64))
 }
 
 // ----------------------------------------------------------------------
